@@ -90,3 +90,70 @@ Proof.
   - eapply walks_key with (k := [108]%N); [reflexivity| |reflexivity|constructor].
     unfold plain_key. repeat split; try discriminate; reflexivity.
 Qed.
+
+(* ---- P[len] = v : an index equal to the length appends exactly one element ------------------------- *)
+Lemma add_at_len f root p c items z y :
+  resolve root p = Some (Lst c items) -> z = Z.of_nat (length items) ->
+  (exists nn ni, split_name_index y = Ok (nn, ni)) ->
+  add (S f) root p (Some (br (dec_of_Z z))) [y] =
+  Ok (replace_at root p (Lst c (items ++ [Leaf SNone])), p, s_lastidx).
+Proof.
+  intros Hp Hz [nn [ni Hy]]. cbn [add]. unfold br at 1. cbn [app].
+  change (c_lb :: dec_of_Z z ++ [c_rb]) with (br (dec_of_Z z)).
+  rewrite (sni_br _ (clean_idx_dec z)), Hy. cbn [bind]. rewrite Hp.
+  destruct (plain_idx_dec z) as [_ [Hnew Hstar]].
+  rewrite Hnew.
+  assert (Hlast : pstr_eqb (dec_of_Z z) s_last = false) by (apply dec_not_kw; cbn; lia).
+  rewrite Hlast, n0eval_dec, Hz, Z.eqb_refl. reflexivity.
+Qed.
+
+Theorem setitem_appends_at_len fuel root x v toks p c items y si :
+  has_path_char x = true -> tokenize x = toks ++ [y] ->
+  walk root toks p (Lst c items) ->
+  split_name_index y = Ok ([], IdxStr si) -> plain_idx si -> n0eval si = EvInt (Z.of_nat (length items)) ->
+  2 * length toks + 2 <= fuel ->
+  setitem_core fuel root x v = Ok (replace_at root p (Lst c (items ++ [v]))).
+Proof.
+  intros Hc Ht Hw Hs Hi He Hf. unfold setitem_core. rewrite Hc, Ht.
+  destruct (find_walk_prefix true root toks p (Lst c items) Hw [y] ltac:(congruence) fuel root [] s_root ltac:(lia))
+    as [fstr' [fuel' [H1 [H2 H3]]]].
+  rewrite H3. destruct fuel' as [|f']; [lia|].
+  assert (Hoob : norm_idx (length items) (Z.of_nat (length items)) = None) by (apply norm_idx_none; lia).
+  rewrite (find_idx_oob true f' root y [] (PAt ([] ++ p)) c items fstr' si _ Hs Hi He Hoob).
+  cbn [bind rest_falsy f_rest f_par f_slot app].
+  pose proof (walk_resolve _ _ _ _ Hw) as Hp.
+  destruct fuel as [|f]; [lia|].
+  rewrite (add_at_len f root p c items _ y Hp eq_refl ltac:(eauto)). cbn [bind].
+  set (root' := replace_at root p (Lst c (items ++ [Leaf SNone]))).
+  unfold write_slot. rewrite sni_lastidx. cbn [bind pget nonempty].
+  unfold root' at 1. rewrite (resolve_replace_same root p _ _ Hp). rewrite n0eval_last.
+  rewrite app_length. cbn [length]. rewrite Nat.add_1_r, norm_idx_last. cbn [pset].
+  rewrite set_nth_snoc. unfold root'. now rewrite (replace_replace_same root p _ _ _ Hp).
+Qed.
+
+(* an index beyond the end is refused: SyntaxError, and the tree is not touched (the model returns no tree) *)
+Theorem setitem_refuses_beyond_end fuel root x v toks p c items y si z :
+  has_path_char x = true -> tokenize x = toks ++ [y] ->
+  walk root toks p (Lst c items) ->
+  split_name_index y = Ok ([], IdxStr si) -> plain_idx si -> n0eval si = EvInt z ->
+  (Z.of_nat (length items) < z)%Z ->
+  2 * length toks + 2 <= fuel ->
+  setitem_core fuel root x v = Raise ExSyntax.
+Proof.
+  intros Hc Ht Hw Hs Hi He Hz Hf. unfold setitem_core. rewrite Hc, Ht.
+  destruct (find_walk_prefix true root toks p (Lst c items) Hw [y] ltac:(congruence) fuel root [] s_root ltac:(lia))
+    as [fstr' [fuel' [H1 [H2 H3]]]].
+  rewrite H3. destruct fuel' as [|f']; [lia|].
+  assert (Hoob : norm_idx (length items) z = None) by (apply norm_idx_none; lia).
+  rewrite (find_idx_oob true f' root y [] (PAt ([] ++ p)) c items fstr' si _ Hs Hi He Hoob).
+  cbn [bind rest_falsy f_rest f_par f_slot app].
+  pose proof (walk_resolve _ _ _ _ Hw) as Hp.
+  destruct fuel as [|f]; [lia|].
+  cbn [add]. unfold br at 1. cbn [app]. change (c_lb :: dec_of_Z z ++ [c_rb]) with (br (dec_of_Z z)).
+  rewrite (sni_br _ (clean_idx_dec z)), Hs. cbn [bind]. rewrite Hp.
+  destruct (plain_idx_dec z) as [_ [Hnew Hstar]]. rewrite Hnew.
+  assert (Hlast : pstr_eqb (dec_of_Z z) s_last = false) by (apply dec_not_kw; cbn; lia).
+  rewrite Hlast, n0eval_dec.
+  assert (E : Z.eqb z (Z.of_nat (length items)) = false) by (apply Z.eqb_neq; lia).
+  now rewrite E.
+Qed.
